@@ -208,6 +208,15 @@ def check_ref_property(prop: str, tier: str, seed: int) -> int:
             stage_layer_typing(out, want=("shape", "dtype", "type", "grad"))
         if prop == "C12":
             stage_layer_typing(out, want=("seed",))
+        if prop == "C10":
+            # constant= handling of the constructors / converters (cells of Construct.tla that pass constant=, or
+            # start from a constant / integer tensor)
+            total, agree, per = stage_construct_tables(
+                out, ["construct", "convert"],
+                lambda c: c.get("constant", "none") != "none" or c.get("kind") in ("tconst", "tint", "arri8", "listi", "pyint"))
+            out.coverage["construct_table_cells"] = {"executed": total, "agreeing": agree, "per_table": per}
+        if prop == "C13":
+            stage_memguard_failures(out)
     except tlc.MachineryError as e:
         out.machinery(str(e)[:3000])
     out.assumptions += [
@@ -354,6 +363,48 @@ def _kf_witness_still_fails(key) -> bool:
         reset_global_state()
         if was:
             gc.enable()
+
+
+MG_ALPHA_FAIL = '{"newarr", "npview", "freeze", "wrap", "op", "fail", "failout", "dropt"}'
+
+
+def stage_memguard_failures(out: core.Outcome, maxlen: int = 4):
+    """C13 (a failed operation leaves no lock behind): every MemGuard.tla behaviour of the stated length over the
+    alphabet with failing operations (bad where= mask, bad out=, read-only out=) replayed on real arrays."""
+    import shutil
+    import tempfile
+
+    from . import memguard
+
+    spec = os.path.join(tlc.SPEC, "MemGuard.tla")
+    scratch = tempfile.mkdtemp(prefix="verif-mgf-")
+    try:
+        cfg = os.path.join(scratch, "emit.cfg")
+        _mg_cfg(cfg, 3, 4, 2, maxlen, True, ["Emit"], MG_ALPHA_FAIL)
+        rc, o, wall = tlc.run_tlc(spec, cfg, workers=1, timeout=1500, heap="8g")
+        behs, bad = replay.parse_behaviours(o)
+        if rc != 0 or bad or not behs:
+            out.machinery(f"MemGuard emission failed rc={rc} bad={bad} n={len(behs)}: {o[-600:]}")
+            return
+        behs = [b for b in behs if any(e["ev"]["k"] in ("fail", "failout") for e in b)]
+        out.judged += len(behs)
+        nbad = 0
+        for b in behs:
+            r = memguard.compare(b)
+            if r is None or r[4]:
+                continue
+            nbad += 1
+            out.violation({"kind": "memguard-replay", "events": [e["ev"] for e in b], "failing_event": r[0], "field": r[1],
+                           "predicted": r[2], "observed": r[3]},
+                          f"failed operation leaves a lock behind: after event {r[0]} the writeable flags differ from "
+                          f"MemGuard.tla ({r[1]}: predicted {r[2]}, observed {r[3]})")
+        st = tlc.parse_stats(o)
+        out.coverage.setdefault("replay_stages", []).append(
+            {"spec": "MemGuard.tla", "mode": "exhaustive, behaviours containing a failing operation", "max_len": maxlen,
+             "behaviours": len(behs), "agreeing": len(behs) - nbad, "states": st["distinct"] if st else None})
+        out.coverage["behaviours_replayed"] = out.coverage.get("behaviours_replayed", 0) + len(behs)
+    finally:
+        shutil.rmtree(scratch, ignore_errors=True)
 
 
 def check_C08(tier: str, seed: int) -> int:
@@ -565,18 +616,19 @@ def check_C16(tier: str, seed: int) -> int:
 
 
 # ----------------------------------------------------------------------------- C17 / C18: construction tables
-def _table_check(prop: str, tier: str, seed: int, tables, runner_name: str, rule: str):
+def stage_construct_tables(out: core.Outcome, tables, cell_filter=None):
+    """Every cell of the named tables of spec/tables/Construct.tla (TLC initial states) executed on the real code."""
     import shutil
     import tempfile
 
     from . import construct
     from .driver import reset_global_state
 
-    out = core.Outcome(prop, tier, seed, "model_checking")
     spec = os.path.join(tlc.SPEC, "tables", "Construct.tla")
     scratch = tempfile.mkdtemp(prefix="verif-tab-")
     try:
-        out.coverage["states"] = out.coverage["transitions"] = 0
+        out.coverage.setdefault("states", 0)
+        out.coverage.setdefault("transitions", 0)
         total = agree = 0
         per = {}
         for t in tables:
@@ -595,6 +647,8 @@ def _table_check(prop: str, tier: str, seed: int, tables, runner_name: str, rule
                 out.machinery(f"Construct.tla ({t}): {bad} unparsable, {len(items)}/{st['distinct']} cells emitted")
             out.coverage["states"] += st["distinct"]
             out.coverage["transitions"] += st["generated"]
+            if cell_filter is not None:
+                items = [it for it in items if cell_filter(it["cell"])]
             out.judged += len(items)
             nb = 0
             for n, it in enumerate(items):
@@ -617,12 +671,19 @@ def _table_check(prop: str, tier: str, seed: int, tables, runner_name: str, rule
             if items:
                 out.add_sample({"table": t, "cell": items[len(items) // 3]["cell"], "expected": items[len(items) // 3]["expected"]}, limit=5)
         reset_global_state()
+        return total, agree, per
+    finally:
+        shutil.rmtree(scratch, ignore_errors=True)
+
+
+def _table_check(prop: str, tier: str, seed: int, tables, runner_name: str, rule: str):
+    out = core.Outcome(prop, tier, seed, "model_checking")
+    try:
+        total, agree, per = stage_construct_tables(out, tables)
         out.coverage.update({"exhaustive": True, "cells_executed": total, "cells_agreeing": agree, "per_table": per,
                              "traces_validated_against_impl": total})
     except tlc.MachineryError as e:
         out.machinery(str(e)[:3000])
-    finally:
-        shutil.rmtree(scratch, ignore_errors=True)
     cov = out.coverage
     cov["rule"] = rule
     cov["evaluations"] = cov.get("cells_executed", 0)
